@@ -152,6 +152,30 @@ def compare_reads(stream, model, reqs, res: dict, mech: str, byte_cap: int = 48 
             break
 
 
+def closed_handle_reads(stream, model, handles, reqs, rng, res: dict, mech: str, n: int = 5) -> None:
+    """Last act of a case: the caller closes the backing file(s) and reads on. Failing is fine (there is nothing to read
+    from); serving bytes that are not the image's - zeros, say - is not."""
+    cnt = res.setdefault("cnt", {})
+    viol = res.setdefault("viol", [])
+    if viol or model.size <= 0 or not reqs:
+        return
+    for h in handles:
+        try:
+            getattr(h, "_fh", h).close()
+        except Exception:  # noqa: BLE001
+            pass
+    for off, ln in rng.sample(list(reqs), k=min(n, len(reqs))):
+        ln = min(ln, 1 << 20)
+        exp = model.expected(off, ln)
+        o = call(lambda: (stream.seek(off), stream.read(ln))[1])
+        cnt["reads_after_the_backing_file_was_closed"] = cnt.get("reads_after_the_backing_file_was_closed", 0) + 1
+        cnt["reads_after_close_that_raised"] = cnt.get("reads_after_close_that_raised", 0) + int(not o.ok)
+        if o.ok and o.value != exp:
+            viol.append({"what": "after the backing file was closed a read returned bytes that are not the image's instead of failing", "mech": mech,
+                         "detail": mismatch_detail(off, ln, o.value, exp)})
+            return
+
+
 def two_readers(first, open_again, model, rng, res: dict, mech: str, rounds: int = 6) -> None:
     """Two streams obtained from the same container object (open() called twice) are two readers: each keeps its own
     position. They are read alternately, by position only (one seek each, then plain read(n) calls)."""
